@@ -710,11 +710,8 @@ bool tN2kMsg::GetBuf(void *buf, size_t Length, int &Index) const {
   bool ret=true;
 
   if ((size_t)Index+Length<=(size_t)DataLen) {
-    if ( buf!=0 ) {
-      memcpy(buf,Data+Index,Length);
-    } else {
-      Index+=Length; // Just pass this string
-    }
+    if ( buf!=0 ) memcpy(buf,Data+Index,Length);
+    Index+=Length; // Pass the bytes, also when there is no buffer to copy them to
   } else {
     Index=DataLen;
     ret=false;
